@@ -22,7 +22,7 @@
 //!   stats.json
 mod canon;
 mod eval;
-mod gen;
+mod pgen;
 mod lexm;
 mod mutate;
 
@@ -90,9 +90,9 @@ fn run_child(infile: &str, outfile: &str) {
         let mut fails = Vec::new();
         for f in &e.failures {
             let cnt = shrunk_per_key.entry(f.key.clone()).or_insert(0);
-            let shrunk = if *cnt < 2 && shrink_budget > 0 {
+            let shrunk = if *cnt < 2 && shrink_budget > 0 && f.cat != "fmt-refused" {
                 *cnt += 1;
-                let s = shrink(&vm, src, &f.key, shrink_budget);
+                let s = shrink(the_vm, src, &f.key, shrink_budget);
                 Some(s)
             } else {
                 None
@@ -334,7 +334,7 @@ fn perturbations(base: &Case, rng: &mut Rng, how_many: usize, out: &mut Vec<Case
         let (tag, f) = &all[k];
         let s = f(rng);
         if s != base.src {
-            out.push(Case { family: format!("{}+{}", base.family, tag), name: base.name.clone(), src: s, prelude: false });
+            out.push(Case { family: format!("{}+{}", base.family, tag), name: base.name.clone(), src: s, prelude: base.prelude });
         }
     }
 }
@@ -367,7 +367,7 @@ fn comment_variants(base: &Case, rng: &mut Rng, every_gap: bool, random_many: us
                     family: format!("{}+comment1:{}:{:?}", base.family, if line { "line" } else { "block" }, place),
                     name: base.name.clone(),
                     src: s,
-                    prelude: false,
+                    prelude: base.prelude,
                 });
             }
         }
@@ -393,7 +393,7 @@ fn comment_variants(base: &Case, rng: &mut Rng, every_gap: bool, random_many: us
             picks.push((g, text.to_string(), place));
         }
         if let Some(s) = mutate::insert_many(&base.src, &toks, &picks) {
-            out.push(Case { family: format!("{}+commentN", base.family), name: base.name.clone(), src: s, prelude: false });
+            out.push(Case { family: format!("{}+commentN", base.family), name: base.name.clone(), src: s, prelude: base.prelude });
         }
     }
 }
@@ -468,6 +468,30 @@ fn main() {
         }
         return;
     }
+    if args.rest.first().map(|s| s.as_str()) == Some("gentest") {
+        // debugging aid: print generated programs that do not parse
+        let mut rng = Rng::new(args.seed);
+        let styles = pgen::styles();
+        let mut bad = 0;
+        let mut total = 0;
+        for i in 0..40 {
+            let depth = 2 + rng.below(3) as u32;
+            let decls = 1 + rng.below(5) as usize;
+            let prog = pgen::Gen { rng: &mut rng }.program(depth, decls);
+            for (sname, st) in &styles {
+                let text = pgen::render(&prog, st.clone(), &mut rng);
+                total += 1;
+                if let Err(e) = canon::canon_ast(&text) {
+                    bad += 1;
+                    if bad <= 12 {
+                        println!("==== program {} style {}: {}\n{}", i, sname, e, text);
+                    }
+                }
+            }
+        }
+        println!("unparseable {}/{}", bad, total);
+        return;
+    }
     if let Some(path) = &args.replay {
         let v: serde_json::Value = serde_json::from_str(&std::fs::read_to_string(path).expect("replay file")).expect("json");
         let src = v["case"]["source"].as_str().expect("case.source").to_string();
@@ -495,17 +519,17 @@ fn main() {
 
     // ---- (i) generated programs --------------------------------------------------------
     let n_programs: usize = args.extra.get("programs").and_then(|s| s.parse().ok()).unwrap_or(if thorough { 400 } else { 60 });
-    let styles = gen::styles();
+    let styles = pgen::styles();
     let mut gen_texts = 0usize;
     for i in 0..n_programs {
         let depth = 2 + rng.below(3) as u32;
         let decls = 1 + rng.below(5) as usize;
-        let prog = gen::Gen { rng: &mut rng }.program(depth, decls);
+        let prog = pgen::Gen { rng: &mut rng }.program(depth, decls);
         // every program in two or three styles
         let k0 = rng.below(styles.len() as u64) as usize;
         for j in 0..(if thorough { 3 } else { 2 }) {
             let (sname, st) = &styles[(k0 + j * 2 + (j / 2)) % styles.len()];
-            let text = gen::render(&prog, st.clone(), &mut rng);
+            let text = pgen::render(&prog, st.clone(), &mut rng);
             if canon::canon_ast(&text).is_err() {
                 // the printer produced something the parser refuses: counted, not used
                 cases.push(Case { family: format!("gen:{}", sname), name: format!("gen{}", i), src: text, prelude: false });
@@ -531,9 +555,8 @@ fn main() {
         };
         n_files += 1;
         let rel = f.strip_prefix(&format!("{}/", eval::repo())).unwrap_or(f).to_string();
-        // as is: once the way `gluon fmt` does it (implicit prelude on), once without
-        cases.push(Case { family: "repo:as-is:prelude".into(), name: rel.clone(), src: src.clone(), prelude: true });
-        let base = Case { family: "repo".into(), name: rel.clone(), src, prelude: false };
+        // the way `gluon fmt` does it: implicit prelude on (the imported std modules need it)
+        let base = Case { family: "repo".into(), name: rel.clone(), src, prelude: true };
         cases.push(Case { family: "repo:as-is".into(), ..base.clone() });
         perturbations(&base, &mut rng, if thorough { 7 } else { 3 }, &mut cases);
         comment_variants(&base, &mut rng, false, if thorough { 6 } else { 1 }, &mut cases);
